@@ -9,7 +9,7 @@ from mc import pool, wire, refms
 BODIES = [b"keep;\r\n", b"keep;\n# x\n", b"stop;", b"", b"OK\r\n{5}\r\nNO \"x\"\r\n", b"# \xc3\xa9\r\nkeep;\r\n",
           b"# a\xe2\x80\xa8b\x0cc\xc2\x85d\x1ce\r\nkeep;\r\n"]  # U+2028, FF, U+0085, FS are not line ends
 VERBS = ["LISTSCRIPTS", "GETSCRIPT", "PUTSCRIPT", "SETACTIVE", "DELETESCRIPT"]
-ACTIONS = ["NO", "BYE", "SILENCE", "EOF", "DROP-REPLY"]  # DROP-REPLY: executed by the server, the reply never arrives
+ACTIONS = ["NO", "BYE", "SILENCE", "EOF", "DROP-REPLY", "NO-BARE"]  # DROP-REPLY: executed by the server, the reply never arrives
 
 
 def norm(b):
@@ -99,7 +99,7 @@ STATUS_FORMS = [0, 3, 4, 1]
 CUT_SPAN = {"quick": 170, "thorough": 400}
 
 
-def run_case(state, body_i, faults, ns_i=0, form=0, cut=None, lit=0, wfault=None):
+def run_case(state, body_i, faults, ns_i=0, form=0, cut=None, lit=0, wfault=None, probe=False):
     names = NAMESETS[ns_i]
     store, active = build(state, BODIES[body_i], names)
     ch = refms.FixedChoices({"list-name-literal": lit, "getscript-quoted": 0}) if lit else None
@@ -107,6 +107,12 @@ def run_case(state, body_i, faults, ns_i=0, form=0, cut=None, lit=0, wfault=None
     srv.status_form = form
     before = dict(srv.store)
     s = wire.open_session(srv)
+    if probe:
+        # the caller first asks whether the names exist (refused with NONEXISTENT for absent ones): what an earlier reply left in the
+        # client must not colour the rename
+        s.call("getscript", names["new"])
+        s.call("getscript", "no-such-script")
+        before = dict(srv.store)
     if wfault is not None:
         # the j-th write of the emulation fails after k octets (timeout); only the store-level clauses are judged for these
         import socket as _socket
@@ -129,7 +135,7 @@ def task(t):
     distinct = set()
     sample = None
     fault_sets = [()] + [((v, a),) for v in VERBS for a in ACTIONS]
-    pool_ = [(v, a) for v in VERBS for a in (("NO", "BYE", "EOF", "DROP-REPLY") if tier == "quick" else ACTIONS)]
+    pool_ = [(v, a) for v in VERBS for a in (("NO", "BYE", "EOF", "DROP-REPLY", "NO-BARE") if tier == "quick" else ACTIONS)]
     fault_sets += [(x, y) for x, y in itertools.combinations(pool_, 2) if x[0] != y[0]]
     if tier == "thorough":
         small = [(v, a) for v in VERBS for a in ("NO", "EOF")]
@@ -149,6 +155,16 @@ def task(t):
                                   "witness": "state old=%s new=%s other=%s faults=%r body=%r" % (state + (faults, BODIES[bi])), "observed": o.brief()})
                 elif sample is None and faults and o.kind == "ret":
                     sample = {"state": "old=%s new=%s other=%s" % state, "faults": repr(faults), "outcome": o.brief(), "store_after": sorted(srv.store)}
+        # the same single faults after refused probes on the same client
+        for faults in [()] + [((v, a),) for v in VERBS for a in ("NO", "NO-BARE", "DROP-REPLY")]:
+            bad, o, srv = run_case(state, 0, faults, 0, 0, None, 0, None, True)
+            n += 1
+            if bad:
+                viols.append({"property": "C14", "engine": "wire",
+                              "signature": ["C14", "old=%s new=%s other=%s" % state + "/after-probes", "+".join("%s@%s" % (a, v) for v, a in faults) or "no-fault", bad[0]],
+                              "what": "after two getscript probes, emulated rename old->new from state old=%s new=%s other=%s, faults %r: %s (outcome %s)" % (state + (faults, bad[1], o.brief())),
+                              "case": {"state": list(state), "body_i": 0, "faults": [list(f) for f in faults], "ns_i": 0, "probe": True},
+                              "witness": "probes, then state old=%s new=%s other=%s faults=%r" % (state + (faults,)), "observed": o.brief()})
         # a send that fails after k octets, at each of the (up to) five writes of the emulation
         for j in range(5):
             for k in (0, 1, 9, 20, 40):
@@ -240,7 +256,7 @@ def replay(payload):
         return []
     if c.get("same_name"):
         return [v for v in same_name_cases()[1] if v["signature"] == payload["signature"]]
-    bad, o, srv = run_case(tuple(c["state"]), c["body_i"], tuple(tuple(f) for f in c["faults"]), c.get("ns_i", 0), c.get("form", 0), c.get("cut"), c.get("lit", 0), tuple(c["wfault"]) if c.get("wfault") else None)
+    bad, o, srv = run_case(tuple(c["state"]), c["body_i"], tuple(tuple(f) for f in c["faults"]), c.get("ns_i", 0), c.get("form", 0), c.get("cut"), c.get("lit", 0), tuple(c["wfault"]) if c.get("wfault") else None, bool(c.get("probe")))
     if bad:
         sig = list(payload["signature"])
         sig[3] = bad[0]
